@@ -1,21 +1,37 @@
-"""verify a list of contracts: generate VCs from the current /repo source, discharge them in a process pool."""
+"""verify a list of contracts: generate VCs from the current /repo source, discharge them in a process pool.
+
+Phase A (one task per target): symbolic execution, canaries, quick discharge of every VC (e-matching 5 s, z3 6 s).
+Phase B (one task per open VC, so all cores are used when something is wrong): finite-scope refutation with
+native replay, then the full solver budget (z3, then cvc5 on z3's `unknown`).
+"""
 from __future__ import annotations
-import os, sys, time, traceback
+
+import importlib
+import os
+import sys
+import time
+import traceback
 from concurrent.futures import ProcessPoolExecutor
 from typing import Dict, List
 
-from .contracts import Registry, generate_vcs, discharge, discharge_long, refute_finite, VCResult, Contract
+import z3
+
+from .contracts import Registry, generate_vcs, discharge, discharge_long, refute_finite, z3_check, VCResult, Contract
 from .engine import Unsupported
 from .values import Sorts
 
+LONG_MS = int(os.environ.get("PYVC_LONG_MS", "25000"))
 
-def verify_target(mod_names: List[str], key: str, timeout_ms: int = 30000, replay: str = ""):
-    """worker: build a registry from the sidecar modules, verify one target; returns plain data."""
-    import importlib
-    import z3
+
+def _registry(mod_names: List[str]) -> Registry:
     reg = Registry()
     for m in mod_names:
         importlib.import_module(m).register(reg)
+    return reg
+
+
+def phase_a(mod_names: List[str], key: str, timeout_ms: int):
+    reg = _registry(mod_names)
     c = reg.contracts[key]
     S = Sorts()
     t0 = time.time()
@@ -26,11 +42,38 @@ def verify_target(mod_names: List[str], key: str, timeout_ms: int = 30000, repla
     except Exception:
         return {"key": key, "status": "engine-error", "detail": traceback.format_exc()[-1500:], "results": [], "info": {}, "gen_s": time.time() - t0}
     gen_s = time.time() - t0
+    # vacuity guard: behind every distinct path condition a canary `ensures False` must NOT be provable
+    seen_pc = set()
+    info["canaries"] = 0
+    info["vacuous_paths"] = []
+    for vc in vcs:
+        if isinstance(vc.formula, str):
+            continue
+        kpc = tuple(f.get_id() for f in vc.pc)
+        if kpc in seen_pc:
+            continue
+        seen_pc.add(kpc)
+        info["canaries"] += 1
+        cr, cdt, _, _ = z3_check(S, vc.pc, z3.BoolVal(False), 1500, mbqi=False)
+        if cr == "unsat":
+            info["vacuous_paths"].append("%s %s" % (vc.name, vc.path))
     results = []
+    for idx, vc in enumerate(vcs):
+        r = discharge(S, vc, timeout_ms=timeout_ms)
+        results.append({"name": r.name, "status": r.status, "backend": r.backend, "seconds": r.seconds, "path": r.path, "detail": r.detail,
+                        "confirmed": None, "artefacts": [], "index": idx})
+    return {"key": key, "status": "ok", "results": results, "info": info, "gen_s": gen_s, "file": c.file, "qualname": c.qualname}
+
+
+def phase_b(mod_names: List[str], key: str, index: int, name: str, replay: str):
+    """one open VC: finite-scope refutation (candidates replayed natively), then the long solver budget."""
+    reg = _registry(mod_names)
+    c = reg.contracts[key]
     replay_fn = None
     if replay:
         rm, rf = replay.split(":")
         replay_fn = getattr(importlib.import_module(rm), rf)
+
     def validate_for(Sx, vcx):
         def validate(model):
             if not getattr(c, "concretize", None) or replay_fn is None:
@@ -47,43 +90,55 @@ def verify_target(mod_names: List[str], key: str, timeout_ms: int = 30000, repla
             return out
         return validate
 
-    pending = []
-    for vc in vcs:
-        r = discharge(S, vc, timeout_ms=timeout_ms)
-        results.append({"name": r.name, "status": r.status, "backend": r.backend, "seconds": r.seconds, "path": r.path, "detail": r.detail,
-                        "confirmed": None, "artefacts": []})
-        if r.status != "unsat":
-            pending.append((len(results) - 1, vc))
-    if pending:
-        # refutation mode first (fast), full solver budget only for what stays open
-        names = sorted(set(vc.name for (_, vc) in pending))
-        ref = refute_finite(reg, c, names, validate_for)
-        for (idx, vc) in pending:
-            rr = ref[vc.name]
-            results[idx]["detail"] += "; refutation: " + " | ".join(rr["log"])[:600]
-            results[idx]["seconds"] += rr["seconds"] / max(1, sum(1 for (_, v) in pending if v.name == vc.name))
-            results[idx]["artefacts"] = rr["artefacts"]
-            if rr["confirmed"] is not None:
-                results[idx]["status"] = "sat"
-                results[idx]["backend"] = rr.get("backend", "z3 finite scope")
-                results[idx]["confirmed"] = rr["confirmed"]
-            else:
-                r2 = discharge_long(S, vc, timeout_ms * 3)
-                results[idx]["seconds"] += r2.seconds
-                results[idx]["detail"] += "; " + r2.detail
-                if r2.status == "unsat":
-                    results[idx]["status"] = "unsat"
-                    results[idx]["backend"] = r2.backend
-    return {"key": key, "status": "ok", "results": results, "info": info, "gen_s": gen_s, "file": c.file, "qualname": c.qualname}
+    out = {"status": "unknown", "backend": "", "seconds": 0.0, "detail": "", "confirmed": None, "artefacts": []}
+    if getattr(c, "concretize", None) and replay_fn is not None:
+        ref = refute_finite(reg, c, [name], validate_for)[name]
+        out["detail"] += "refutation: " + " | ".join(ref["log"])[:600]
+        out["seconds"] += ref["seconds"]
+        out["artefacts"] = ref["artefacts"]
+        if ref["confirmed"] is not None:
+            out.update(status="sat", backend=ref.get("backend", "z3 finite scope"), confirmed=ref["confirmed"])
+            return out
+    S = Sorts()
+    vcs, _ = generate_vcs(reg, c, S)
+    if index >= len(vcs) or vcs[index].name != name:
+        out["detail"] += "; regenerated VC list differs (index %d)" % index
+        return out
+    r2 = discharge_long(S, vcs[index], LONG_MS)
+    out["seconds"] += r2.seconds
+    out["detail"] += "; " + r2.detail
+    if r2.status == "unsat":
+        out.update(status="unsat", backend=r2.backend)
+    return out
 
 
 def verify_all(mod_names: List[str], keys: List[str], workers: int = 16, timeout_ms: int = 30000, replays: Dict[str, str] = None):
     out = {}
     replays = replays or {}
-    with ProcessPoolExecutor(max_workers=min(workers, max(1, len(keys)))) as ex:
-        futs = {k: ex.submit(verify_target, mod_names, k, timeout_ms, replays.get(k, "")) for k in keys}
+    with ProcessPoolExecutor(max_workers=workers) as ex:
+        futs = {k: ex.submit(phase_a, mod_names, k, timeout_ms) for k in keys}
         for k, f in futs.items():
             out[k] = f.result()
+        tasks = []
+        for k in keys:
+            r = out[k]
+            if r["status"] != "ok":
+                continue
+            for x in r["results"]:
+                if x["status"] != "unsat":
+                    tasks.append((k, x, ex.submit(phase_b, mod_names, k, x["index"], x["name"], replays.get(k, ""))))
+        for (k, x, f) in tasks:
+            try:
+                b = f.result()
+            except Exception:
+                b = {"status": "unknown", "backend": "", "seconds": 0.0, "detail": "phase B crashed: " + traceback.format_exc()[-300:], "confirmed": None, "artefacts": []}
+            x["seconds"] += b["seconds"]
+            x["detail"] += "; " + b["detail"]
+            x["artefacts"] = b["artefacts"]
+            if b["status"] in ("sat", "unsat"):
+                x["status"] = b["status"]
+                x["backend"] = b["backend"] or x["backend"]
+                x["confirmed"] = b["confirmed"]
     return out
 
 
